@@ -43,12 +43,48 @@ impl<'i> TryFrom<&'i str> for expr::ValueExpr<'i> {
     }
 }
 
+/// Maximum depth of the nested parentheses in an expression.
+/// Parser, evaluator and printer are all recursive,
+/// so deeper nesting would overflow the stack.
+const MAX_PAREN_DEPTH: usize = 256;
+
+thread_local! {
+    static PAREN_DEPTH: std::cell::Cell<usize> = const { std::cell::Cell::new(0) };
+}
+
+/// Tracks the depth of nested [`paren_expr`], decrements the depth on drop.
+struct ParenDepthGuard;
+
+impl ParenDepthGuard {
+    /// Enters one more level, or returns `None` if it is too deep.
+    fn enter() -> Option<Self> {
+        PAREN_DEPTH.with(|depth| {
+            if depth.get() >= MAX_PAREN_DEPTH {
+                None
+            } else {
+                depth.set(depth.get() + 1);
+                Some(ParenDepthGuard)
+            }
+        })
+    }
+}
+
+impl Drop for ParenDepthGuard {
+    fn drop(&mut self) {
+        PAREN_DEPTH.with(|depth| depth.set(depth.get() - 1));
+    }
+}
+
 fn paren_expr<'i, I, E>(input: &mut I) -> winnow::Result<expr::ValueExpr<'i>, E>
 where
     I: Stream<Token = char, Slice = &'i str> + StreamIsPartial + Clone,
     E: ParserError<I> + FromExternalError<I, pretty_decimal::Error>,
     <I as Stream>::Token: AsChar + Clone,
 {
+    let _guard = match ParenDepthGuard::enter() {
+        Some(guard) => guard,
+        None => return Err(ParserError::from_input(input)),
+    };
     trace(
         "expr::paren_expr",
         paren(delimited(space0, add_expr, space0)).map(expr::ValueExpr::Paren),
